@@ -212,6 +212,10 @@ _CMP = {ast.Lt: operator.lt, ast.LtE: operator.le, ast.Gt: operator.gt,
 
 def compare(I, op, a, b):
     ty = type(op)
+    if ty in (ast.In, ast.NotIn) and isinstance(b, Cell) and \
+            b.kind == "idict":
+        r = contains(I, b, a)
+        return z3.Not(r) if ty is ast.NotIn else r
     if not isinstance(a, OptVal):
         a = _val(a)
     if not isinstance(b, OptVal):
@@ -300,6 +304,10 @@ def seq_compare(I, ty, a, b):
 
 
 def contains(I, container, item):
+    if isinstance(container, Cell) and container.kind == "idict":
+        n = to_int(container.read().length)
+        k = to_int(_val(item))
+        return z3.And(-1 <= k, k < n - 1)
     container = _val(container)
     if isinstance(container, (list, tuple, set, frozenset)):
         if isinstance(item, (str, int, float, bool)) and all(
@@ -330,6 +338,10 @@ def norm_index(I, i, n, what="index"):
     if isinstance(i, int) and i < 0:
         I.oblige(f"{what}_in_range@{I.cur_line}", -n_ <= i_, "safety")
         return z3.simplify(i_ + n_)
+    if I.spec:
+        # contract expressions index mathematically (0-based, no negative
+        # wrap-around): a[i] with a symbolic i is the i-th element
+        return i_
     I.oblige(f"{what}_in_range@{I.cur_line}",
              z3.And(-n_ <= i_, i_ < n_), "safety")
     return z3.If(i_ < 0, i_ + n_, i_)
@@ -416,6 +428,8 @@ def getitem(I, base, key):
         key = _val(key.value)
     if isinstance(base, Cell):
         val = base.read()
+        if base.kind == "idict":
+            return idict_get(I, val, key)
         if base.kind == "row":
             if isinstance(key, str):
                 if key not in val.fields:
@@ -467,6 +481,10 @@ def getitem(I, base, key):
             if isinstance(key, tuple) and len(key) == 2 and \
                     val.elem.startswith("Sort("):
                 return tbl_getitem(I, base, val, key)
+            if isinstance(key, tuple) and len(key) == 2 and \
+                    _full(key[0]) and key[1] is None and \
+                    val.elem in ("Real", "Int"):
+                return ColVal(val)             # v[:, np.newaxis]
             if key is None or isinstance(key, tuple):
                 raise Unsupported("multi-dimensional subscript")
             i = norm_index(I, key, val.length)
@@ -620,6 +638,9 @@ def setitem(I, base, key, value):
         raise Unsupported("write through a numpy view")
     val = base.read()
     v = _val(value)
+    if base.kind == "idict":
+        idict_set(I, base, key, v)
+        return
     if base.kind == "row":
         if isinstance(key, str):
             f = dict(val.fields)
@@ -1138,7 +1159,10 @@ for _k in ("seq", "struct"):
 
     @method(_k, "shape", prop=True)
     def _arr_shape(I, b):
-        return (_val(b).length,)
+        v = _val(b)
+        if is_tbl(v):
+            return tbl_shape(I, v)
+        return (v.length,)
 
 
 @method("row", "copy")
@@ -1981,6 +2005,10 @@ def tbl_getitem(I, base, val, key):
                         else None)
         if isinstance(c, slice):
             raise Unsupported("column slice of a table")
+        if isinstance(c, int) and c < 0:
+            return Cell("arr", SymSeq(
+                rows.length, lambda i: tbl_col(
+                    rows.get(i), tbl_ncol(rows.get(i)) + c), "Real"))
         return Cell("arr", SymSeq(rows.length,
                                   lambda i: tbl_col(rows.get(i), c), "Real"))
     i = norm_index(I, r, val.length)
@@ -2141,6 +2169,11 @@ def _concatenate(I, parts, **kw):
             return _val(img).get(j - ch.b(k))
         return Cell("arr", SymSeq(ch.x.length, get, "Real"))
     items = concrete_iter(I, parts)
+    if items is not None and len(items) == 2 and kw.get("axis") == 1 and \
+            is_tbl(_val(items[0])) and isinstance(items[1], ColVal):
+        return tbl_append_col(I, _val(items[0]), items[1].seq)
+    if kw.get("axis") not in (None, 0):
+        raise Unsupported("np.concatenate along this axis")
     if items is not None and len(items) > 2 and all(
             isinstance(_val(p), SymSeq) for p in items):
         acc = _val(items[0])
@@ -2631,6 +2664,10 @@ def _logsumexp2(I, a, b=None, **kw):
     a = _val(a)
     if not isinstance(a, SymSeq):
         raise Unsupported("logsumexp of non-seq")
+    if is_tbl(a):
+        if kw != {"axis": 1} or b is None:
+            raise Unsupported("logsumexp of a table: only (b=..., axis=1)")
+        return tbl_logsumexp(I, a, _val(b))
     if kw:
         raise Unsupported("logsumexp with axis/keepdims")
     if b is None:
@@ -2891,6 +2928,9 @@ _old_binop = binop
 
 
 def binop(I, op, a, b):      # noqa: F811  (path concatenation)
+    if type(a).__name__ == "ColVal" and type(b).__name__ == "ColVal":
+        r = _old_binop(I, op, a.seq, b.seq)
+        return type(a)(_val(r))
     if isinstance(op, ast.Add) and isinstance(a, PathVal) and \
             isinstance(b, str):
         return PathVal(a.base, a.suffix + b)
@@ -3296,3 +3336,305 @@ def _seq_ndim(I, b):
     v = _val(b)
     # a sequence of abstract points is a 2-d array (one row per point)
     return 2 if str(v.elem).startswith("Sort(") else 1
+
+
+# =====================================================================
+# C03: dictionaries with integer keys inserted in the order -1, 0, 1, ...
+# (the proposal-weight and sample-count dictionaries of the importance
+# sampler).  Value: the SymSeq of values in insertion order, position p <->
+# key p - 1.  A store with a key that is neither present nor the next key
+# is a definite failure of this representation (obligation
+# `dense_key_order`): the proof that weights and density-table columns stay
+# aligned relies on exactly that order, because np.fromiter(d.values())
+# follows insertion order.
+# =====================================================================
+class IDictView:
+    def __init__(self, cell, what):
+        self.cell, self.what = cell, what
+
+
+def idict_get(I, val, key):
+    k = to_int(_val(key))
+    n = to_int(val.length)
+    I.oblige(f"key_present@{I.cur_line}", z3.And(-1 <= k, k < n - 1),
+             "safety")
+    return val.get(k + 1)
+
+
+def idict_set(I, cell, key, v):
+    val = cell.read()
+    k = to_int(_val(key))
+    n = to_int(val.length)
+    v = _coerce_elem(v, val.elem)
+    present = z3.And(-1 <= k, k < n - 1)
+    if I.spec:
+        raise Unsupported("store in a contract expression")
+    if I.fork(present):
+        cell.write(SymSeq(val.length, lambda i: ite(to_int(i) == k + 1, v,
+                                                    val.get(i)), val.elem))
+        return
+    I.oblige(f"dense_key_order@{I.cur_line}", k == n - 1, "safety")
+    cell.write(SymSeq(n + 1, lambda i: ite(to_int(i) == n, v, val.get(i)),
+                      val.elem))
+
+
+for _w in ("values", "items", "keys"):
+    METHODS[("idict", _w)] = (lambda I, b, _w=_w: E.LibFunc(
+        f"idict.{_w}", lambda I2, _w=_w, b=b: IDictView(b, _w)))
+
+
+@method("idict", "update")
+def _idict_update(I, b, other):
+    o = other
+    if not (isinstance(o, Cell) and o.kind == "idict"):
+        raise Unsupported("dict.update with a non-IDict argument")
+    d, e = b.read(), o.read()
+    dn, en = to_int(d.length), to_int(e.length)
+    # e's keys -1..en-2 overwrite; keys of e beyond d's are appended in e's
+    # (= increasing) order, so the result is dense-ordered again
+    b.write(SymSeq(z3.If(en > dn, en, dn),
+                   lambda i: ite(to_int(i) < en, e.get(i), d.get(i)),
+                   d.elem))
+
+
+@method("idict", "copy")
+def _idict_copy(I, b):
+    return Cell("idict", b.read())
+
+
+@lib("numpy.fromiter")
+def _np_fromiter(I, it, dtype=None, **kw):
+    if isinstance(it, IDictView) and it.what == "values":
+        v = it.cell.read()
+        return Cell("arr", SymSeq(v.length, v.get, "Real"
+                                  if v.elem in ("Real", "Int") else v.elem))
+    raise Unsupported("np.fromiter of a general iterable")
+
+
+@lib("numpy.isclose")
+def _np_isclose(I, a, b, rtol=1e-05, atol=1e-08, **kw):
+    a, b = to_real(_val(a)), to_real(_val(b))
+    from fractions import Fraction
+    tol = z3.RealVal(str(Fraction(atol))) + \
+        z3.RealVal(str(Fraction(rtol))) * z3.If(b >= 0, b, -b)
+    d = a - b
+    return z3.And(d <= tol, -d <= tol)
+
+
+_dict_comprehension0 = dict_comprehension
+
+
+def dict_comprehension(I, node, env):
+    """{k: f(k, v) for k, v in d.items()} over an IDict: the same keys in the
+    same order, values mapped."""
+    if len(node.generators) == 1:
+        g = node.generators[0]
+        it = I.eval(g.iter, env)
+        if isinstance(it, IDictView) and it.what == "items":
+            if g.ifs or not (isinstance(g.target, ast.Tuple) and
+                             len(g.target.elts) == 2 and
+                             isinstance(node.key, ast.Name) and
+                             node.key.id == g.target.elts[0].id):
+                raise Unsupported("dict comprehension over an IDict that "
+                                  "changes the keys")
+            src = it.cell.read()
+            kn, vn = (e.id for e in g.target.elts)
+
+            def get(i, src=src):
+                env2 = dict(env)
+                env2[kn] = to_int(i) - 1
+                env2[vn] = src.get(i)
+                return I.eval(node.value, env2)
+            probe = get(z3.Int(I.namer.fresh("q_dc")))
+            elem = "Real" if (is_z3(probe) and z3.is_real(probe)) or \
+                isinstance(probe, float) else src.elem
+            return Cell("idict", SymSeq(src.length, get, elem))
+        return _dict_comprehension0_with(I, node, env, it)
+    return _dict_comprehension0(I, node, env)
+
+
+def _dict_comprehension0_with(I, node, env, it):
+    g = node.generators[0]
+    conc = concrete_iter(I, it, must=True)
+    out = {}
+    for item in conc:
+        env2 = dict(env)
+        I.assign(g.target, item, env2)
+        ok = True
+        for cond in g.ifs:
+            if not I.decide(I.eval(cond, env2)):
+                ok = False
+                break
+        if ok:
+            out[I.eval(node.key, env2)] = I.eval(node.value, env2)
+    return out
+
+
+# ---- 2-D density tables: number of columns, column vectors, row-wise
+# ---- weighted logsumexp, appending a column --------------------------
+def tbl_ncol(row):
+    f = z3.Function("NCOL", row.sort(), z3.IntSort())
+    return f(row)
+
+
+class ColVal:
+    """v[:, np.newaxis]: a column vector (n x 1)"""
+
+    def __init__(self, seq):
+        self.seq = seq
+
+
+LIB["spec.ncol"] = E.LibFunc("spec.ncol", lambda I, r: tbl_ncol(_val(r)))
+LIB["spec.col"] = E.LibFunc("spec.col",
+                            lambda I, r, j: tbl_col(_val(r), to_int(_val(j))))
+
+
+def is_tbl(v):
+    return isinstance(v, SymSeq) and isinstance(v.elem, str) and \
+        v.elem.startswith("Sort(") and v.elem != "Sort(P)" and \
+        v.elem not in ("Sort(X)", "Sort(Zs)")
+
+
+def tbl_shape(I, v):
+    """(rows, columns) of a rectangular table: every row has `nc` columns"""
+    nc = I.fresh_const("ncols", z3.IntSort())
+    I.assume(nc >= 0)
+    I.assume(forall_idx(I, v.length, lambda k: tbl_ncol(v.get(k)) == nc))
+    return (v.length, nc)
+
+
+def tbl_append_col(I, tbl, col):
+    I.oblige(f"concat_rows@{I.cur_line}",
+             to_int(tbl.length) == to_int(col.length), "safety")
+    srt = usort(parse_type(tbl.elem)[1])
+    f = z3.Function(I.namer.fresh("tblrow"), z3.IntSort(), srt)
+    n = tbl.length
+    j = z3.Int(I.namer.fresh("q_j"))
+    I.assume(forall_idx(I, n, lambda i: z3.And(
+        tbl_ncol(f(i)) == tbl_ncol(tbl.get(i)) + 1,
+        tbl_col(f(i), tbl_ncol(tbl.get(i))) == to_real(col.get(i)))))
+    i = z3.Int(I.namer.fresh("q_i"))
+    I.assume(z3.ForAll([i, j], z3.Implies(
+        z3.And(0 <= i, i < to_int(n), 0 <= j, j < tbl_ncol(tbl.get(i))),
+        tbl_col(f(i), j) == tbl_col(tbl.get(i), j))))
+    return Cell("arr", SymSeq(n, lambda q: f(to_int(q)), tbl.elem))
+
+
+def tbl_logsumexp(I, tbl, b):
+    """logsumexp(tbl, b=b, axis=1): one value per row"""
+    nb = to_int(b.length)
+    I.oblige(f"broadcast_weights@{I.cur_line}", forall_idx(
+        I, tbl.length, lambda i: tbl_ncol(tbl.get(i)) == nb), "lib_requires")
+
+    def get(i):
+        row = tbl.get(i)
+        return LOGF(sum_term(I, 0, nb, lambda k: to_real(b.get(k)) *
+                             EXPI(I, tbl_col(row, k))))
+    return Cell("arr", SymSeq(tbl.length, get, "Real"))
+
+
+# ---- C03: abstract per-level proposal densities ---------------------------
+# LPX(k, x'): log-density of the level-k flow at the primed point x'
+# (k = -1: the initial uniform proposal on the unit hypercube, density 1).
+LPX = z3.Function("LPX", z3.IntSort(), XS_, z3.RealSort())
+
+
+class PFun:
+    """x' -> LPX(it, x') as a function value"""
+
+    def __init__(self, it):
+        self.it = it
+
+    def __call__(self, x):
+        return LPX(self.it, x)
+
+    def domain(self, i):
+        return XS_
+
+
+LIB["spec.LPX"] = E.LibFunc(
+    "spec.LPX", lambda I, it, x: LPX(to_int(_val(it)), _val(x)))
+LIB["spec.LPXfun"] = E.LibFunc(
+    "spec.LPXfun", lambda I, it: FuncVal(PFun(to_int(_val(it))), "LPX"))
+
+
+@lib("spec.lemma_sum_split")
+def _lemma_sum_split(I, t, k):
+    """Lean: sum_split_ico -- a range sum splits around one index."""
+    lam, lo, hi = _sum_parts(t)
+    k = to_int(_val(k))
+    I.stats.lib_used.add("lemma:sum_split")
+    return z3.Implies(z3.And(0 <= lo, lo <= k, k < hi),
+                      t == SUMA(lam, lo, k) + lam_at(lam, k) +
+                      SUMA(lam, k + 1, hi))
+
+
+@lib("spec.lemma_sum_last")
+def _lemma_sum_last(I, t):
+    """Lean: sum_last_ico -- peel the last term of a non-empty range."""
+    lam, lo, hi = _sum_parts(t)
+    I.stats.lib_used.add("lemma:sum_last")
+    return z3.Implies(z3.And(0 <= lo, lo < hi),
+                      t == SUMA(lam, lo, hi - 1) + lam_at(lam, hi - 1))
+
+
+@lib("spec.lemma_sum_mul")
+def _lemma_sum_mul(I, t1, t2, c):
+    """Lean: sum_mul_ico -- a pointwise constant factor comes out."""
+    l1, lo1, hi1 = _sum_parts(t1)
+    l2, lo2, hi2 = _sum_parts(t2)
+    c = to_real(_val(c))
+    k = z3.Int(I.namer.fresh("q_sm"))
+    I.stats.lib_used.add("lemma:sum_mul")
+    return z3.Implies(z3.And(
+        0 <= lo1, lo1 == lo2, hi1 == hi2,
+        z3.ForAll([k], z3.Implies(z3.And(lo1 <= k, k < hi1),
+                                  lam_at(l1, k) == c * lam_at(l2, k)))),
+        t1 == c * t2)
+
+
+LIB["spec.isclose"] = LIB["numpy.isclose"]
+
+
+@lib("spec.lemma_sum_div")
+def _lemma_sum_div(I, t1, t2, c):
+    """Lean: sum_div_ico -- a pointwise constant divisor comes out."""
+    l1, lo1, hi1 = _sum_parts(t1)
+    l2, lo2, hi2 = _sum_parts(t2)
+    c = to_real(_val(c))
+    k = z3.Int(I.namer.fresh("q_sd"))
+    I.stats.lib_used.add("lemma:sum_div")
+    return z3.Implies(z3.And(
+        0 <= lo1, lo1 == lo2, hi1 == hi2,
+        z3.ForAll([k], z3.Implies(z3.And(lo1 <= k, k < hi1),
+                                  lam_at(l1, k) == lam_at(l2, k) / c))),
+        t1 == t2 / c)
+
+
+@lib("spec.mixrow")
+def _spec_mixrow(I, wd, row):
+    """sum_j w[j-1] * exp(col(row, j)) over all entries of the weight dict,
+    as a *named* function of the row (RS_w(row), defined by a quantified
+    axiom): equal rows then give equal mixtures by congruence, without any
+    reasoning about the sum."""
+    w = wd.read() if isinstance(wd, Cell) else _val(wd)
+    row = _val(row)
+    cache = I.ghost.setdefault("mixrow", {})
+    ent = cache.get(id(w))
+    if ent is None:
+        rs = z3.Function(I.namer.fresh("RS"), row.sort(), z3.RealSort())
+        r = z3.Const(I.namer.fresh("q_r"), row.sort())
+        body = sum_term(I, 0, w.length, lambda k: to_real(w.get(k)) *
+                        EXPI(I, tbl_col(r, k)))
+        I.pc.append(z3.ForAll([r], rs(r) == body, patterns=[rs(r)]))
+        ent = (rs, w)
+        cache[id(w)] = ent
+    return ent[0](row)
+
+
+def as_term(I, v):
+    """a z3 term for a trigger expression"""
+    v = _val(v)
+    if isinstance(v, StrVal):
+        return v.term
+    return to_z3(v)
